@@ -44,7 +44,7 @@ func Run(c *vh.Ctx) {
 		},
 		Monitors:          func() []scen.Monitor { return []scen.Monitor{&monitors.C06{}} },
 		NonTrivialCounter: "c06_status_writes",
-		Gates: []chkfam.Gate{{"c06_available_true_written", 200}, {"c06_available_false_written", 200}, {"c06_succeeded_set", 15}, {"c06_intransition_cleared", 25},
+		Gates: []chkfam.Gate{{"c06_available_true_written", 200}, {"c06_available_false_written", 200}, {"c06_succeeded_set", 15}, {"c06_intransition_cleared", 12},
 			{"c06_archived_true_written", 30}, {"c06_passes_on_archived_set", 30}, {"c06_controllerof_complete_checked", 60}},
 		Rule:        "run = random rollout / handover / probe regression / pause / archival / deletion histories with generation bumps between observation and status write, a lagging manager cache (status updates then hit 409), injected API errors, lost responses, crashes and restarts; every successful status write is compared with what the same pass observed (states read or returned by its own writes), condition histories are checked online; non-trivial = the run contains status writes; distinct = distinct step logs",
 		Assumptions: []string{"the manager's cached client may serve ObjectSets up to 4 commits old in a quarter of the runs"},
